@@ -113,9 +113,31 @@ type twinResult struct {
 }
 
 // runTwin executes the scenario once; `between` is called before every epoch (perturbation hook)
-func runTwin(spec twinSpec, between func()) twinResult {
+func runTwin(spec twinSpec, between func()) twinResult { return runTwinPrep(spec, between, nil) }
+
+// usedOptions: the Options VALUE of the run already served other work with OTHER activator probabilities, which were
+// then set back in place (a parameter sweep reusing one Options object): identical inputs as far as any field says
+func usedOptions(o *neat.Options) {
+	n := len(o.NodeActivatorsProb)
+	if n < 2 || len(o.NodeActivators) != n {
+		return
+	}
+	saved := append([]float64{}, o.NodeActivatorsProb...)
+	for i := range o.NodeActivatorsProb {
+		o.NodeActivatorsProb[i] = saved[(i+1)%n]*0.5 + 0.01*float64(i)
+	}
+	for k := 0; k < 4; k++ {
+		_, _ = o.RandomNodeActivationType()
+	}
+	copy(o.NodeActivatorsProb, saved)
+}
+
+func runTwinPrep(spec twinSpec, between func(), prep func(*neat.Options)) twinResult {
 	sc := buildTwinScenario(spec)
 	res := twinResult{ErrAt: -1}
+	if prep != nil {
+		prep(sc.opts)
+	}
 	rand.Seed(spec.RunSeed)
 	pop, err := genetics.NewPopulation(sc.start, sc.opts)
 	if err != nil {
@@ -257,10 +279,10 @@ func opTwinRun(g *G) (interface{}, []uint64, int, interface{}) {
 	defer func() {
 		neat.LogLevel, neat.DebugLog, neat.InfoLog, neat.WarnLog = prevLevel, prevDebug, prevInfo, prevWarn
 	}()
-	b := runTwin(spec, func() {
+	b := runTwinPrep(spec, func() {
 		churnSink = make([]byte, 1+priv.Intn(1<<16))
 		runtime.GC()
-	})
+	}, usedOptions)
 	close(stop)
 	wg.Wait()
 	debug.SetGCPercent(prevGC)
